@@ -86,6 +86,7 @@ type reqRecord struct {
 	ran    int
 	params map[string]string
 	u0, u1 string
+	ux     string // the URL of ANOTHER named route built by this request's handler without any value ("-": there is none)
 	chains int
 	dirty  int
 	laws   []string
@@ -96,6 +97,7 @@ const poisonKey = "\x00written-by-a-handler"
 type routerSession struct {
 	f       *flamego.Flame
 	handles map[int]*flamego.Route
+	nameOrder []string // every name given successfully, in order (what the router's name table holds)
 	combos  map[int]*flamego.ComboRoute // registrations made through Combo (no *Route handle: named through the combo)
 	named   map[int]bool
 	exprs   map[int]map[string]*regexp.Regexp // hid → bind name → ^(?:its own expression)$ (EngineLaws monitor)
@@ -217,14 +219,20 @@ func (s *routerSession) op(l []string) (out string) {
 		if len(l) != 3 {
 			return "bad-op"
 		}
+		var res string
 		if c, ok := s.combos[atoi(l[1])]; ok {
-			return okErr(func() { c.Name(unhx(l[2])) })
+			res = okErr(func() { c.Name(unhx(l[2])) })
+		} else {
+			rt, ok := s.handles[atoi(l[1])]
+			if !ok {
+				return "err"
+			}
+			res = okErr(func() { rt.Name(unhx(l[2])) })
 		}
-		rt, ok := s.handles[atoi(l[1])]
-		if !ok {
-			return "err"
+		if res == "ok" {
+			s.nameOrder = append(s.nameOrder, unhx(l[2]))
 		}
-		return okErr(func() { rt.Name(unhx(l[2])) })
+		return res
 	case "REQ":
 		if len(l) < 3 {
 			return "bad-op"
@@ -308,6 +316,15 @@ func (s *routerSession) add(hid int, methods, text string) string {
 		}
 		s.cur.u0 = safeStr(func() string { return c.URLPath(name, pairsOf(s.cur.params, "false")...) })
 		s.cur.u1 = safeStr(func() string { return c.URLPath(name, pairsOf(s.cur.params, "true")...) })
+		// … and the URL of another named route WITHOUT any value: its binds stay visible as {bind}, whatever parameters
+		// the request being served happens to have
+		s.cur.ux = "-"
+		for _, other := range s.nameOrder {
+			if other != name {
+				s.cur.ux = hx(safeStr(func() string { return c.URLPath(other) }))
+				break
+			}
+		}
 	}
 	var rt *flamego.Route
 	res := okErr(func() {
@@ -335,6 +352,7 @@ func (s *routerSession) add(hid int, methods, text string) string {
 		s.exprs[hid] = bindExprs(text)
 		if okErr(func() { s.combos[hid].Name(fmt.Sprintf("r%d", hid)) }) == "ok" {
 			s.named[hid] = true
+			s.nameOrder = append(s.nameOrder, fmt.Sprintf("r%d", hid))
 		}
 	}
 	if res == "ok" && rt != nil {
@@ -342,6 +360,7 @@ func (s *routerSession) add(hid int, methods, text string) string {
 		s.handles[hid] = rt
 		if okErr(func() { rt.Name(fmt.Sprintf("r%d", hid)) }) == "ok" {
 			s.named[hid] = true
+			s.nameOrder = append(s.nameOrder, fmt.Sprintf("r%d", hid))
 		}
 	}
 	// shadow trees, populated identically through the exported tree API
@@ -457,8 +476,12 @@ func (s *routerSession) req(method, path string, hs []string) (out string) {
 	if rec.ran == 0 {
 		return fmt.Sprintf("nf chains=%d code=%d", rec.chains, w.Code)
 	}
-	return fmt.Sprintf("h %d %s route=%s u0=%s u1=%s chains=%d ran=%d dirty=%d laws=%s", rec.hid, showParams(rec.params),
-		hx(rec.params["route"]), hx(rec.u0), hx(rec.u1), rec.chains, rec.ran, rec.dirty, lawsField(rec.laws))
+	ux := rec.ux
+	if ux == "" {
+		ux = "-"
+	}
+	return fmt.Sprintf("h %d %s route=%s u0=%s u1=%s ux=%s chains=%d ran=%d dirty=%d laws=%s", rec.hid, showParams(rec.params),
+		hx(rec.params["route"]), hx(rec.u0), hx(rec.u1), ux, rec.chains, rec.ran, rec.dirty, lawsField(rec.laws))
 }
 
 func (s *routerSession) treq(method, path string, hs []string) (out string) {
